@@ -37,6 +37,15 @@ let handle_ttseq line args obs =
               t := t1;
               let m = if ok then "w1" else "w0" in
               if m <> o then report_mismatch line (Printf.sprintf "op#%d: %s" i m);
+              (* specification: a store only replaces an entry of no greater replacement value, the value
+                 of an entry being what it is worth once resident (uint16 ply + 2*depth) *)
+              (match old with
+               | Some _ when o = "w1" ->
+                 let (t2, _) = tt_write_ok { slots = List.map (fun _ -> None) !t.slots; used = N0 } (n_of_hex h) (n_of_int (int_of_string bound)) (z_of_int (int_of_string ply)) (z_of_int (int_of_string depth)) (Dispatch3.parse_score sc) mv in
+                 let fresh = nthN t2.slots (key t2 (n_of_hex h)) None in
+                 if int_of_n (val0 fresh) < int_of_n (val0 old) then
+                   report_spec ~key:"prop=C17 key=replaced-greater" line (Printf.sprintf "op#%d: the store (ply %s, depth %s, value %d once resident) replaced an entry of greater replacement value %d" i ply depth (int_of_n (val0 fresh)) (int_of_n (val0 old)))
+               | _ -> ());
               bump (if o = "w1" then (match old with None -> "tt/store-empty" | Some _ -> "tt/store-replace") else "tt/store-refused");
               let tuple = Printf.sprintf "hit:%s:%d:%s:%s:%s:%s" bound ((int_of_string depth) land 65535) sc f to_ pr in
               Hashtbl.replace written h (tuple :: (try Hashtbl.find written h with Not_found -> []))
